@@ -1,2 +1,3 @@
 pub mod chars;
 pub mod canon;
+pub mod external;
